@@ -193,6 +193,14 @@ def file_menu():
     for f in ('dag.dot', 'dag.kthlist'):
         c('cnfgen', 'peb {FX}/' + f)
         c('cnfgen', 'stone 3 {FX}/' + f)
+    # the same file name relative to the working directory: every working
+    # directory of the process part holds a copy of the fixtures
+    c('cnfgen', 'kcolor 3 {REL}simple.gml')
+    c('cnfgen', 'php {REL}bip.kthlist')
+    c('cnfgen', 'peb {REL}dag.kthlist')
+    c('cnfgen', 'subsetcard ./{REL}bip.dot')
+    c('cnfgen', 'php 4 3 -T xorcomp {REL}comp.kthlist')
+    c('pbgen', 'matching {REL}simple.dot')
     return [x for x in m if x is not None]
 
 
@@ -209,6 +217,10 @@ def make_dirs():
     plain = os.path.join(base, 'outside')
     os.makedirs(gitdir)
     os.makedirs(plain)
+    for d in (gitdir, plain):
+        for name, text in FIXTURES.items():
+            with open(os.path.join(d, name), 'w') as f:
+                f.write(text)
     env = dict(os.environ, GIT_CONFIG_GLOBAL='/dev/null', GIT_CONFIG_SYSTEM='/dev/null')
     try:
         subprocess.run(['git', 'init', '-q', gitdir], check=True, env=env,
@@ -254,7 +266,8 @@ def run_processes(args, R):
         for name, text in FIXTURES.items():
             with open(os.path.join(fx, name), 'w') as f:
                 f.write(text)
-        jobs = [{'tool': t, 'argv': [x.replace('{FX}', fx) for x in argv_with_seed(t, a, seed)],
+        jobs = [{'tool': t, 'argv': [x.replace('{FX}', fx).replace('{REL}', '')
+                                     for x in argv_with_seed(t, a, seed)],
                  'stdin': s} for (t, a, s) in batch]
         results = {}
         for (label, hs, kind) in configs(tier):
@@ -349,8 +362,9 @@ def fixtures_dir():
 def check_monitor(case):
     tool, argv, stdin, seed = case['tool'], case['argv'], case['stdin'], case['seed']
     name = '%s:%s' % (tool, _cmd_name(argv))
-    if any('{FX}' in x for x in argv):
-        argv = [x.replace('{FX}', fixtures_dir()) for x in argv]
+    if any('{FX}' in x or '{REL}' in x for x in argv):
+        argv = [x.replace('{FX}', fixtures_dir()).replace('./{REL}', '{REL}').replace(
+            '{REL}', fixtures_dir() + '/') for x in argv]
     out = []
 
     def bad(sym, what):
@@ -604,7 +618,8 @@ def replay(case):
         for name, text in FIXTURES.items():
             with open(os.path.join(fx, name), 'w') as f:
                 f.write(text)
-        job = {'tool': case['tool'], 'argv': [x.replace('{FX}', fx) for x in case['argv']],
+        job = {'tool': case['tool'], 'argv': [x.replace('{FX}', fx).replace('{REL}', '')
+                                              for x in case['argv']],
                'stdin': case['stdin']}
         res = [(lab, run_batch([job], hs, gitdir if kind == 'git' else plain)[0])
                for (lab, hs, kind) in configs(case.get('tier', 'quick'))]
